@@ -400,6 +400,7 @@ Proof.
   - cbn [fst snd]. pose proof (step_down_fields n t) as (A & B & C & D & E).
     apply step_spec_follower; auto; [apply step_down_vstep; lia|apply quiet_timer, quiet_nil].
   - destruct (negb _); [apply step_spec_quiet; [apply same_el_r_refl|apply quiet_nil]|].
+    destruct (t <? term n); [apply step_spec_quiet; [apply same_el_r_refl|apply quiet_nil]|].
     destruct s; cbn [fst snd].
     + apply step_spec_quiet; [|apply quiet_nil].
       eapply same_el_r_trans; [|apply try_commit_elr]. destruct n; elr_simpl.
